@@ -685,9 +685,50 @@ func checkOrdering(c *Ctx, p *core.Prog) {
 		if cst, isConst := m.(*ssa.Const); isConst && cst.Value == nil {
 			continue // early return with no matches
 		}
+		if g, gm, gfam, ok := resultBuilder(m, fam); ok {
+			// the result is built by a helper from the sorted slice it is handed after the sort
+			if call, isCall := m.(*ssa.Call); isCall && instrBeforeI(site.Call, call) {
+				okFilter, why = orderPreservingFilter(gm, gfam, nil)
+				_ = g
+			} else {
+				okFilter, why = false, "the helper that builds the result runs before the sort"
+			}
+			continue
+		}
 		okFilter, why = orderPreservingFilter(m, fam, site.Call)
 	}
 	c.R.Check(okFilter, "R03.4", "match: the returned matches are an order-preserving filter of the sorted candidates", pos, why, why)
+}
+
+// resultBuilder: m is the result of a call of a same-package helper that receives a member of the slice family `sorted`
+// as an argument: returns the helper, the value it returns and the family of the corresponding parameter.
+func resultBuilder(m ssa.Value, sorted map[ssa.Value]bool) (*ssa.Function, ssa.Value, map[ssa.Value]bool, bool) {
+	call, ok := m.(*ssa.Call)
+	if !ok {
+		return nil, nil, nil, false
+	}
+	g := call.Call.StaticCallee()
+	if g == nil || core.FuncPkgPath(g) != v2pkg || len(g.Blocks) == 0 {
+		return nil, nil, nil, false
+	}
+	for i, a := range call.Call.Args {
+		if !sorted[a] || i >= len(g.Params) {
+			continue
+		}
+		var rv ssa.Value
+		n := 0
+		for _, b := range g.Blocks {
+			if ret, isRet := b.Instrs[len(b.Instrs)-1].(*ssa.Return); isRet && len(ret.Results) >= 1 {
+				rv = ret.Results[0]
+				n++
+			}
+		}
+		if n != 1 {
+			return nil, nil, nil, false
+		}
+		return g, rv, sliceFamily(g.Params[i]), true
+	}
+	return nil, nil, nil, false
 }
 
 // checkResultIsRetained: R03.4b. The matches returned are exactly the candidates that the overlap filter retained: the
@@ -703,6 +744,17 @@ func checkResultIsRetained(c *Ctx, p *core.Prog) {
 		m := lit.fields["Matches"]
 		if m == nil {
 			continue
+		}
+		fn := fn
+		if call, isCall := m.(*ssa.Call); isCall {
+			// the result is built by a helper: look at the value it returns
+			if g := call.Call.StaticCallee(); g != nil && core.FuncPkgPath(g) == v2pkg && len(g.Blocks) > 0 {
+				for _, b := range g.Blocks {
+					if ret, isRet := b.Instrs[len(b.Instrs)-1].(*ssa.Return); isRet && len(ret.Results) >= 1 {
+						m, fn = ret.Results[0], g
+					}
+				}
+			}
 		}
 		for v := range sliceFamily(m) {
 			call, ok := v.(*ssa.Call)
@@ -870,7 +922,7 @@ func orderPreservingFilter(m ssa.Value, sorted map[ssa.Value]bool, sortCall ssa.
 		if !ascendingIndex(ia.Index) {
 			return false, "the index into the sorted slice is not an ascending loop index"
 		}
-		if !instrBeforeI(sortCall, call) {
+		if sortCall != nil && !instrBeforeI(sortCall, call) {
 			return false, "the filter runs before the sort"
 		}
 	}
